@@ -12,805 +12,1054 @@ Definition show_fres (r : fres) : string :=
   end.
 Definition check (rs : list rune) : string := digest (show_fres (format_res rs)).
 Definition full (rs : list rune) : string := show_fres (format_res rs).
-Eval vm_compute in ("<<<M1778>>>" ++ check (runes_of_ascii "MetaData asx {
-    char[] MetaDataX,
-    lengthOf Z9_,
-    crc Foo,
-    char[4294967296] BodyLength,
-    Foo leftPad `doc`,
-    tag u128,
-}
+Eval vm_compute in ("<<<M1618>>>" ++ check (runes_of_ascii "
 
-root packet stringy {
-    // trailing space 
-    match Header as repeatCount {
-        [""{,}""] : Header,
-        255 : repeatCount,
-        00 : pack,
-        1 : trueish,
-        7 : A,
-    },
-    T {
-        Z9_ `
-        `,
-    },
-    int16 o @calculatedFrom(""it's"") `line1
-    line2`,
-    match zchar as As {
-        ""CRC32"" : a1,
-        42 : Header,
-        [10] : zchar,
-    },
-    @tag(42)
-    repeat i64_ {
-        // c
-        char[00] _x `{ , }`,
-    },
-    repeat char[] uint8x `crlf
-    line`,
-    @leftPad('\x00')
-    @tag(7)
-    int32 repeatCount @calculatedFrom(""x y"") `// not a comment`,
-    u32 zchar `
-    `,
-    repeat stringy {
-        i8i8 lengthOf,
-    },// packet A { u8 x, }
-    @calculatedFrom(""abc"")
-    @lengthOf(tag)
-    @lengthOf(rootA)
-    char[3] rootA `" ++ [233]%N ++ runes_of_ascii "`,// c
-}
+  // top
+  packet 	 // c0a
+	// c0b
+	  Frame // c1a
+  	// c1b
 
-MetaData crc {
-    float32 asx `" ++ [233]%N ++ runes_of_ascii "`,
-    string i64_,
-}
+{ // c2a
+// c2b
 
-root packet Packet {
-    charz @lengthOf(zchar),
-    f32 f32a `{ , }`,
-    i64 matchKey @lengthOf(leftPad),
-    string trueish,
-    @leftPad('0')
-    // trailing space 
-    tag @lengthOf(string_) `doc`,
-    match stringy as calculatedFrom {
-        [0123456789] : repeatCount,
-    },// trailing space 
-    char[3] Header,
-    int64 MetaDataX,
-    @leftPad()
-    len {
-        packetx @lengthOf(chars) ``,
-    },
-    @rightPad('0')
-    x_y_z,
-}
-
-options {
-    rootA = '0';
-    Foo = char;
-    A = zchar[0123456789];
-    packetx = """ ++ [233]%N ++ runes_of_ascii "t" ++ [233]%N ++ runes_of_ascii """
-    float = true
-}//x")).
-Eval vm_compute in ("<<<M1787>>>" ++ check (runes_of_ascii "
-// trailing space 
-    packet 
-charz
-
-{	@calculatedFrom(  ""1""
-
-)match	x
-as
-    tag
-    { [
-    7 ,// @lengthOf(
-0, 65535
+u8 	 // c3
+	HK  // c4
 	, 
-	    // `tick` ""quote"" 'q'
-  ""it's""	/// triple
+  // c5
+  u8
+// c6
+	BK 	 // c7
+,	// c8a
+	  // c8b
+  u8	// c9
+	TK // c10
 
+	,	// c11a
+
+  // c11b
+	match // c12
+	HK
+	as  Hdr// c15a
+// c15b
+    { // c16
+1  
+  // c17
+:
+    // c18
+	HdrA
 ,
-0
+    2	// c21
+	: 
+// c22
+      HdrB // c23
+  ,// c24a
 
-    ,
-
-    ""x y""
-
-,255 ]	: tag,[
-
-""1""  // a // b
-	, 	 //	t
-
-	3
-, 007	, // " ++ [27880; 37322]%N ++ runes_of_ascii "
-	255 
-, ""x y""
-	    // @lengthOf(
-] 
-:
-
-pack
-	,
-
-    [
-    """ ++ [233]%N ++ runes_of_ascii "t" ++ [233]%N ++ runes_of_ascii """
-    ,7 ,
-    10  ,	3
-,
-
-    0,""a\""b""	] : 
-    // packet A { u8 x, }
-
-  leftPad ,
-[  65535
-// " ++ [27880; 37322]%N ++ runes_of_ascii "
-	,
-
-""x y"" 
-]
-:
-chars
-	[
-""\n""  , 65535
-	,""a\\""
-]
-
-:
-A	,	""\n"" :lengthOf, } , 
+  // c24b
+} ,
+	    // c26
 match
 
-string_ as  i8i8 {
+    // c27
 
-    7	:msg_type
+BK	as 
 
-    , 	 // c
-    ""abc"" 
-:tag  , ""a\""b"":  metadata	,
+// c29
+    	Body	// c30
 
-    255
-	:
-matchKey ,[	""CRC32"",
-""1"" 
-      // " ++ [27880; 37322]%N ++ runes_of_ascii "
-// " ++ [128512]%N ++ runes_of_ascii " emoji
+	{
+    // c31
 
-, 007 ,	""packet""  , ""a\\""/// triple
-      ,
-""a\""b"" 
-        // " ++ [128512]%N ++ runes_of_ascii " emoji
-	  ,007
-	,
-4294967296
-] :
-    lengthOf
-    , }
-,
+	1:// c33a
 
-uint16
-pack
-    ,	string  Pad @lengthOf(o )
-`say ""hi""`
+  // c33b
 
+  BodyA  // c34
 , 
-repeat
-    i8	body
-    ,
-@lengthOf(  //x
-      crc 
-)float64 
-body
+        // c35
+	  2 :
+	    // c37
+    	BodyB , 
+}	// c40a
+// c40b
+	, // c41
+    match	// c42
+TK 
+      // c43
+  as // c44
 
-`// not a comment`
-,
-    repeat  rootA	{
-	int16 
-x_y_z
+Trl  // c45a
 
-    `tab	here`
+	// c45b
+    { // c46a
+	// c46b
+	1 
 
-    ,
+// c47
+  :// c48
+TrlA
+, 	 // c50a
 
-    falsey @calculatedFrom(  ""{,}""
-)
-, trueish	@lengthOf(  crc) `{ , }`
-	,
+  // c50b
+	}	// c51a
+    // c51b
+,	// c52a
+  // c52b
+	} // c53a
+  // c53b
 
-    } , match
-    Pad
-	as  Header {	4294967296:Header 
-,  ""\n""
+packet	HdrA  // c55
 
-    :
+{ u8// c57
+  a// c58a
+      // c58b
+	,// c59
 
-msg_type
+	}// c60
+packet  // c61a
+// c61b
 
-    , 
-""a	b"" 
-:
-	x_y_z 
-,}
-,
-//	t
-  	Logon  ,
-}
-")).
-Eval vm_compute in ("<<<M1876>>>" ++ check (runes_of_ascii "packet x {
-    //x
-    lengthOf @calculatedFrom(""abc"") `u8 x,`,
-    @rightPad()
-    //x
-    // @lengthOf(
-    float32 Packet @lengthOf(falsey),
-    char[10] falsey,
-    @tag(3)
-    repeat zchar[4294967296] repeatCount,
-    repeatCount `say ""hi""`,
-    int16 u128,
-    char[3] crc @calculatedFrom(""x y""),// trailing space 
-    @leftPad('\x00')
-    match chars as i8i8 {
-        42 : charz,
-    },
-}
+	HdrB
+	// c62
 
-options {
-}
+	{	// c63a
 
-MetaData metadata {
-    char[4294967296] i8i8,
-    float rootA,
-    i64 packetx,
-    i8 roots `crlf
-        line`,
-    tag i64_,
-    uint8 Pad `" ++ [233]%N ++ runes_of_ascii "`,
-}
+// c63b
+    u16
 
-root packet Header {
-    u64 options1 `two words`,
-    @calculatedFrom(""a\\"")
-    // " ++ [128512]%N ++ runes_of_ascii " emoji
-    i32 x_y_z @calculatedFrom(""a\""b"") `tab	here`,
-    match A as len {
-        [""CRC32"", ""it's""] : Z9_,
-        ""a	b"" : o,
-    },
-    match asx as pack {
-        0 : x_y_z,
-    },
-    char[] i64_ `{ , }`,
-}
+// c64
+b// c65
+  	,// c66
+  } 	 // c67
 
-MetaData stringy {
-    // trailing space 
-    lengthOf o,
-    string u8x,
-    f32 string_ `doc`,
-}")).
-Eval vm_compute in ("<<<M1487>>>" ++ check (runes_of_ascii "options {
-    matchKey = ""x y"";
-    MetaDataX = '0';
-}
+	packet // c68
+      BodyA 
+{	// c70a
+    // c70b
+	u32
+    // c71
+c // c72
+  	,	}  // c74
+packet 
+// c75
+  	BodyB
 
-packet msg_type {
-    @rightPad(' ')
-    repeat u128 body,
-    match body as pack {
-        [""\" ++ [233]%N ++ runes_of_ascii """, ""1""] : BodyLength,
-        [
-            255, ""a	b"", ""a\\"", ""{,}"", 007,
-            007, 0123456789
-        ] : options1,
-    },
-    @leftPad()
-    @lengthOf(charz)
-    @tag(42)
-    o {
-        i32 msg_type @lengthOf(A) `doc`,
-        zchar[1] charz,// c
-        i8 packetx `{ , }`,
-        msg_type `crlf
-        line`,
-    },
-    @calculatedFrom(""\" ++ [233]%N ++ runes_of_ascii """)
-    Z9_ @calculatedFrom(""" ++ [128512]%N ++ runes_of_ascii """) `tab	here`,
-    repeat char[] Foo,
-    repeat zchar[0123456789] u128,
-}
+{ 
+        // c77
+u64	// c78a
+      // c78b
+  d// c79
+,// c80a
+    // c80b
+	}// c81a
 
-packet f32a {
-    f32a @lengthOf(matchKey),
-    @rightPad(' ')
-    @lengthOf(chars)
-    _x Foo ``,
-    match body as body {
-        [4294967296, ""packet"", 3, """ ++ [128512]%N ++ runes_of_ascii """, 0123456789] : T,
-        [""a\\""] : T,
-        ""\n"" : u8x,
-    },
-}//x
+// c81b
+  packet
+TrlA // c83a
+	// c83b
+	{
+// c84
 
-root packet lengthOf {
-}")).
-Eval vm_compute in ("<<<M1873>>>" ++ check (runes_of_ascii "  packet
-	falsey
-	{	// `tick` ""quote"" 'q'
-repeat
-charz 
-    /// triple
-float	// a // b
-  `tab	here`
-,
+  u8
+e 	 // c86
+	, 
+// c87
+}  // c88a
+	// c88b
+  root  // c89a
+  	// c89b
+    packet
+    // c90
+    	Msg
 
-char[] stringy
-, 
-Logon
-
-    f32a ,char[]
-
-string_ /// triple
-	  ,int16  _x
-
-    `` 
-,	match /// triple
-    crc
-	as
-    stringy {
-""abc"" : Pad
-	[""\n""
-
-, 10
-
-    ,4294967296	, 0123456789
-
-,
-""abc""	,
-	""" ++ [28040; 24687]%N ++ runes_of_ascii """
-
-] :i8i8,10:  
-  //x
-  Header, 10: 	 // c
-  	calculatedFrom
-    ,
-	0123456789 : charz	10 
-:repeatCount
+    // c91
+    	{ Frame ,	// c94a
+      // c94b
+      u8  // c95a
+		// c95b
+    	x	// c96a
+// c96b
+      ,	// c97a
+// c97b
     }
-    , leftPad
+    // c98
+")).
+Eval vm_compute in ("<<<M1430>>>" ++ check (runes_of_ascii "
+packet o
+// trailing space 
+//x
+{repeat
+	pack
+stringy
+	`two words`
 
-    @lengthOf( 
-u8x
-)  ,
-	@lengthOf( a1
-    )
+, char[ 1 ]
+leftPad , }
+	/// triple
+// @lengthOf(
+MetaData  msg_type { zchar[
+1
+] Pad `" ++ [28040; 24687; 31867; 22411]%N ++ runes_of_ascii "`,uint32	//x
+	charz 	 //
+
+`a\` ,
+
+A
+    u8x`// not a comment`
+,
+
+    // `tick` ""quote"" 'q'
+	} 
+packet
+options1
+    {  @calculatedFrom(	""" ++ [233]%N ++ runes_of_ascii "t" ++ [233]%N ++ runes_of_ascii """)
+@rightPad
+()Pad
+    @lengthOf(	// packet A { u8 x, }
+
+pack )``,match	A
+    as a1
+{255:
+msg_type
+    , } , 
+// " ++ [27880; 37322]%N ++ runes_of_ascii "
+
+//
+    @lengthOf(
+tag
+	)
+
+@tag(00
+
+    ) 
+@rightPad	(  ' ')match 
+Header
+as
+
+f32a
+{
+	"""" 
+: float	,
+} // @lengthOf(
+  	,
+
+char[]
+
+T @calculatedFrom( 
+    // packet A { u8 x, }
+""packet"" )
+
+    , repeat
+    asx/// triple
+    msg_type `crlf
+line`,
+@calculatedFrom(""\" ++ [233]%N ++ runes_of_ascii """
+	)
+@tag( 	 // trailing space 
+	7 )  int64
+o
+	`line1
+line2` ,
+// trailing space 
+  }	// " ++ [128512]%N ++ runes_of_ascii " emoji
+	root	packet  // packet A { u8 x, }
+    crc
+    {int8 body
+
+@lengthOf( matchKey )
+
+`two words` ,
+//	t
+
+@lengthOf(u8x  ) zchar[
+
+0123456789
+]  i8i8
+,
+
+    }
+
+MetaData a1 {falsey _x `
+`, char[]body	`" ++ [28040; 24687; 31867; 22411]%N ++ runes_of_ascii "` 
+, 
+	// packet A { u8 x, }
+	//
+zchar[
+    42]
+	trueish
+    `
+`  , float
+
+trueish  ,
+	metadata //x
+		o`{ , }`,
+
+    }")).
+Eval vm_compute in ("<<<M1523>>>" ++ check (runes_of_ascii "  options 
+{
+FixedStringPadFromLeft=
+
+    true
+    ; FixedStringPadChar =  '0' 
+;  }
+	packet Leg	{
+    InPrice0 {
+	repeat
+string	clOrdID
+
+    , int16
+msgKind ,
+zchar[
+	5
+    ]	Px	,	}
+, i16
+f1
+    , repeat f64
+Side2 
+,string Acct ,
+
+}
+
+packet	Cancel  {
+zchar[
+	4 
+] 
+clOrdID ,string 
+seqNo,
+Leg
+	,	@leftPad
+( 
+'0'	)
+
+char[
+	11]
+
+    OrderId
+
+,
+}packet	Quote	{
+
+repeat  char[ 4	]
+sym
+,
+f64  OrderId
+
+, repeat	Leg
+	, repeat
+
+i64
+
+    f1 , 
+int16 Note ,	zchar[	3	]
+count
+	,  } root
+	packet
+Ack
+{@leftPad
+( 
+' ' 
+)
+	char[ 10
+	]
+    sym ,InPx60{
+    Cancel  ,repeat 
+char[ 1]f1	,
+    string Tail,
     repeat
 
-    x
-    body , }	MetaData string_
+InNote55
+    {  int8 count
 
-    {
-float64
-    f32a	,  zchar[
-    255]  T,u32	trueish ,BodyLength
-roots `two words`	, } 
-      // " ++ [128512]%N ++ runes_of_ascii " emoji
-    	//	t
+    ,
+    f64  f1 ,  repeat Cancel ,	} ,
+    char[] 
+tag7
+
+    ,
+
+    repeat 
+string 
+msgKind, }
+
+    , u8
+lastPx	,
+match  lastPx
+as
+    Body
+{ 152:Quote
+
+,  173
+
+    : 
+Cancel
+
+    , 4
+
+    :  Leg
+	,
+}
+,u16 Ref @calculatedFrom( ""CR\
+C32"" ),
+
+}
+
+")).
+Eval vm_compute in ("<<<M135>>>" ++ check (runes_of_ascii "
+packet crc
+    {@tag(	0)  @calculatedFrom(
+    ""{,}""	) @rightPad ( ' ')	repeat uint8 lengthOf // a // b
+,
+    char[	42 ] float ,
+    repeat a1 // packet A { u8 x, }
+{ match
+x_y_z as charz
+    { [
+00
+, 4294967296,
+//x
+// a // b
+""it's"",""" ++ [28040; 24687]%N ++ runes_of_ascii """ ] ://x
+zchar,	[
+    ""packet"" ,// c
+""x y"",
+""it's"" ,""abc"" ,
+""it's""
+    ] :string_ , 0 : Z9_
+}
+    // `tick` ""quote"" 'q'
+    , // `tick` ""quote"" 'q'
+} ,match u8x
+as//x
+pack {[ 0123456789
+, ""x y""
+] : // c
+trueish /// triple
+, }	,
+    @calculatedFrom( ""a\""b""
+    // c
+    ) repeat string_ `a\`,
+packetx@calculatedFrom(
+""`tick`"" ) , int64 chars `say ""hi""` , @calculatedFrom(
+""a	b"" )@leftPad (  '\x00'
+) @lengthOf(
+    repeatCount)u64
+    falsey@calculatedFrom( ""\" ++ [233]%N ++ runes_of_ascii """
+    )
+,
+repeat Header { repeat
+    metadata , char[] chars`" ++ [28040; 24687; 31867; 22411]%N ++ runes_of_ascii "` , zchar[ 10] x_y_z `a\` ,	},
+// trailing space 
+// c
+}
+")).
+Eval vm_compute in ("<<<M1896>>>" ++ check (runes_of_ascii "  options  {
+
+    StringPrefixLenType
+
+=
+
+    u16
+
+    ; ArrayPrefixLenType =u32 
+;
+FixedStringPadFromLeft 
+=true
+;
+
+FixedStringPadChar
+=
+    '0'  ;
+}
+	packet 
+Cancel  {}
+	packet Party
+
+    { } packet  Logon
+
+    {}packet
+    Ack{
+    }
     packet
+Logout
 
-stringy  { zchar[255 ]
-    Foo
-, }MetaData
-	leftPad {	} 	 //
+    {	repeat  InSym87
+{ InClordid94
+{ string
+clOrdID 
+,	}
+	,
+
+string  Px
+	,
+    i16
+Qty ,
+
+    repeat
+	InCount71
+{
+    repeat	Cancel
+,
+uint16 Tail, 
+char[ 
+2  ] x ,
+	repeat
+    string
+
+Ref
+, 
+},
+
+    Cancel,},
+    }
+root 
+packet 
+Order { repeat
+string
+
+    tag7
+, @leftPad
+
+    (  ' '	) 
+char[ 3
+
+]  Px,
+
+u8 Qty
+,	match
+Qty as 
+Body  {
+
+    [  28	, 
+62 ]:Logon,
+
+148  :Ack
+	,88 
+:	Party
+,
+184
+    : Cancel  ,
+}
+    , u16
+Note @calculatedFrom(  ""CRC32"" )
+, }
+
+")).
+Eval vm_compute in ("<<<M1120>>>" ++ check (runes_of_ascii "// top
+root
+    // c0
+packet
+    // c1
+_x
+    // c2
+{
+    // c3
+match
+    // c4
+Foo
+    // c5
+as
+    // c6
+Z9_
+    // c7
+{
+    // c8
+""a	b""
+    // c9
+:
+    // c10
+Pad
+    // c11
+,
+    // c12
+}
+    // c13
+,
+    // c14
+repeat
+    // c15
+x
+    // c16
+`line1
+line2`
+    // c17
+,
+    // c18
+@rightPad
+    // c19
+(
+    // c20
+' '
+    // c21
+)
+    // c22
+@calculatedFrom(
+    // c23
+""a\\""
+    // c24
+)
+    // c25
+metadata
+    // c26
+MetaDataX
+    // c27
+,
+    // c28
+@tag(
+    // c29
+0
+    // c30
+)
+    // c31
+Logon
+    // c32
+int
+    // c33
+``
+    // c34
+,
+    // c35
+}
+    // c36
+options
+    // c37
+{
+    // c38
+T
+    // c39
+=
+    // c40
+'\x00'
+    // c41
+}
+    // c42
+")).
+Eval vm_compute in ("<<<M1118>>>" ++ check (runes_of_ascii "MetaData Packet
+    // c1
+{ // c2
+} packet // c4a
+  // c4b
+charz // c5a
+  // c5b
+{ // c6a
+  // c6b
+Foo // c7
+asx `it's` ,
+    // c10
+@lengthOf( // c11
+T )
+    // c13
+@calculatedFrom(
+    // c14
+"""" // c15
+)
+    // c16
+@calculatedFrom(
+    // c17
+""x y"" // c18
+) // c19a
+  // c19b
+zchar[ 007 // c21
+] repeatCount @lengthOf(
+    // c24
+int // c25
+)
+    // c26
+`a\`
+    // c27
+, // c28a
+  // c28b
+i8
+    // c29
+string_ // c30a
+  // c30b
+, // c31
+repeat // c32
+options1 // c33
+Pad
+    // c34
+, } // c36a
+  // c36b
+root packet
+    // c38
+Packet { int8 // c41
+float `doc` // c43
+, // c44
+}
+    // c45
+")).
+Eval vm_compute in ("<<<M1423>>>" ++ check (runes_of_ascii "packet
+rootA { options1
+_x,u64	Header 
+,
+} packet
+	lengthOf
+{ 
+@rightPad (
+    ' ')
+@lengthOf(
+    u128 	 // trailing space 
+    )
+@calculatedFrom(""a\""b""
+) 
+A
+{
+string
+i64_
+
+`it's` , 
+    //	t
+    	// trailing space 
+	uint8  body, 
+match
+pack as	u { 
+
+// @lengthOf(
+    // trailing space 
+	00
+    :
+charz	,
+    00
+    : int ,
+
+    3
+
+: falsey
+
+255 
+: body
+,
+    [  0123456789
+
+] :
+x_y_z
+
+    , 
+// a // b
+	//
+  } 
+, 
+}
+    ,
+    }
+
+    MetaData  chars
+{
+u128 zchar  , char[42
+	]
+
+    // a // b
+	  // a // b
+	  metadata
+    ,
+	}
+")).
+Eval vm_compute in ("<<<M334>>>" ++ check (runes_of_ascii "MetaData pack {
+int16 rootA `{ , }` ,
+    //	t
+    int16 // c
+x,// " ++ [27880; 37322]%N ++ runes_of_ascii "
+u32 msg_type,
+    }
+packet i64_
+    {// trailing space 
+@leftPad
+    ( '0') @rightPad ( '\x00' // packet A { u8 x, }
+)
+@lengthOf(options1	)
+    string body @lengthOf( asx) `" ++ [233]%N ++ runes_of_ascii "` ,
+    }
+options { msg_type
+    //	t
+    = 00//
+;} MetaData
+    stringy// c
+{
+    zchar MetaDataX `line1
+line2` , char[255] len `it's` , f32 pack ,
+    uint16 Foo
+`it's` , int16 i64_`two words` ,
+    // `tick` ""quote"" 'q'
+    }")).
+Eval vm_compute in ("<<<M335>>>" ++ check (runes_of_ascii "//	t
+packet u8x  {
+u8x { body
+@calculatedFrom(	""`tick`"") `say ""hi""`
+,match a1	as
+    asx // c
+{
+    //	t
+    0
+    :
+// " ++ [27880; 37322]%N ++ runes_of_ascii "
+// @lengthOf(
+asx }
+    ,}
+, @rightPad ( )
+    match Logon as	x { [
+    00 , ""// no comment"" , ""a\\"",0123456789
+    // trailing space 
+    ,
+    4294967296 ] : crc , 00:options1 , // " ++ [27880; 37322]%N ++ runes_of_ascii "
+42
+    :i8i8,0 : o 0123456789
+: body , } ,@tag(
+7 )float
+    @lengthOf(
+stringy) `" ++ [233]%N ++ runes_of_ascii "`,
+u
+    // c
+    @lengthOf( msg_type )
+,
+    }")).
+Eval vm_compute in ("<<<M1760>>>" ++ check (runes_of_ascii "
+// top
+
+  MetaData  // c0
+uint8x  // c1
+    	{  // c2
+      char[]  // c3
+	f32a// c4
+    `// not a comment`	// c5
+  ,	// c6
+  float32  // c7
+  roots // c8
+
+,  // c9
+char[ // c10
+
+  7  // c11
+	] // c12
+    u8x // c13
+	  ,	// c14
+  zchar[// c15
+  10// c16
+		] 	 // c17
+f32a 	 // c18
+, 	 // c19
+    u64 // c20
+	pack // c21
+
+,	// c22
+
+u16 	 // c23
+pack// c24
+      , // c25
+  } 	 // c26
+")).
+Eval vm_compute in ("<<<M1265>>>" ++ check (runes_of_ascii "// top
+packet // c0
+B // c1
+{ // c2
+u8 // c3
+a , // c5a
+  // c5b
+} // c6
+root // c7
+packet P // c9a
+  // c9b
+{ // c10a
+  // c10b
+u8 // c11
+K , // c13a
+  // c13b
+match K // c15a
+  // c15b
+as // c16a
+  // c16b
+Body { // c18
+1 :
+    // c20
+B , }
+    // c23
+, // c24a
+  // c24b
+u16 // c25a
+  // c25b
+L // c26
+@lengthOf( Body
+    // c28
+)
+    // c29
+,
+    // c30
+} ")).
+Eval vm_compute in ("<<<M1501>>>" ++ check (runes_of_ascii "MetaData T {
+    a1 Packet,// " ++ [128512]%N ++ runes_of_ascii " emoji
+    uint8x Pad `" ++ [233]%N ++ runes_of_ascii "`,
+    a1 MetaDataX,
+    zchar[00] metadata `u8 x,`,
+    Pad x `
+    `,
+    i8 u8x,
+}
 
 options {
-    x	//x
-=
-true ;
-zchar= """"
-
-    } //
-")).
-Eval vm_compute in ("<<<M219>>>" ++ check (runes_of_ascii "
-packet
-falsey{ // `tick` ""quote"" 'q'
-repeat charz
-    /// triple
-    float // a // b
-`tab	here`
-    ,
-char[]stringy  , Logon
-    f32a,
-    char[] string_/// triple
-,
-int16
-_x
-`` ,
-    match/// triple
-crc as stringy { ""abc"" :Pad
-    [ ""\n"" , 10, 4294967296, 0123456789 , ""abc"" ,	""" ++ [28040; 24687]%N ++ runes_of_ascii """
-    ] :
-i8i8 , 10 :
-    //x
-    Header , 10:// c
-calculatedFrom
-    , 0123456789: charz
-10
-    :
-    repeatCount} ,
-    leftPad @lengthOf(
-u8x )  , @lengthOf(a1) repeat x body ,
-} MetaData
-string_
-{ float64  f32a	, zchar[
-255] T, u32 trueish, BodyLength roots
-`two words` , }
-// " ++ [128512]%N ++ runes_of_ascii " emoji
-//	t
-packet stringy{ zchar[
-    255
-    ]Foo ,
+    As = false;
 }
-MetaData
-leftPad {
-    } //
-options { x //x
-=
-true
-    ;
-zchar = """" } //")).
-Eval vm_compute in ("<<<M78>>>" ++ check (runes_of_ascii "options {
-Header	=u32; } options {
-i8i8	=
-    f64 ; body
-    =  zchar[
-// " ++ [128512]%N ++ runes_of_ascii " emoji
-/// triple
-00//
-] ; }
-    //
-    MetaData BodyLength  { // trailing space 
-}// " ++ [27880; 37322]%N ++ runes_of_ascii "
-options
-{ Logon= u64 As =
-    true i64_
-= '\x00' ;
-} root packet asx {
-@tag(
-// `tick` ""quote"" 'q'
-//	t
-4294967296
-    )
-    roots @lengthOf( A ) ,repeat uint8 u128
-    , int32 i64_  ,
-    u8 u `` ,
-@lengthOf(
-// c
-// c
-len ) uint64
-    //x
-    matchKey ,	match rootA
-    as stringy {
-1 : string_, 7 : charz , 255 : u128, [ // trailing space 
-0
-,0123456789 ,1,007  ]: len
-    , 10
-    :trueish } ,
-@rightPad	()
-    char[ 7] int //
-@lengthOf(
-x ) `two words`
-, }")).
-Eval vm_compute in ("<<<M348>>>" ++ check (runes_of_ascii "root // c
-packet asx { @rightPad
-    (
-' ' ) @lengthOf(  int)@tag( 0 ) u64 uint8x @calculatedFrom( ""packet"")
-    ,  uint32 i64_ ,
-    // c
-    repeat options1 o,match f32a as /// triple
-falsey// " ++ [27880; 37322]%N ++ runes_of_ascii "
-{ 42 : stringy 10 :
-As, """" :
-    Packet ,
-} ,@calculatedFrom(""it's""
-) // " ++ [128512]%N ++ runes_of_ascii " emoji
-f64	a1 ,
-    @lengthOf(
-    tag )
-    match roots as MetaDataX
-{
-""" ++ [128512]%N ++ runes_of_ascii """:  f32a
-    , ""\n"" :
-    As [ 255 ]: A ,  }, a1 @calculatedFrom(	""abc"" )
-`` , @rightPad(
-)
-    @rightPad (
-    '\x00'
-)@calculatedFrom(
-""CRC32"" )body As , }  root packet packetx
-{
-//x
-//
-repeat lengthOf Logon `" ++ [28040; 24687; 31867; 22411]%N ++ runes_of_ascii "` , //	t
+
+root packet options1 {
+    @calculatedFrom(""// no comment"")
+    @lengthOf(_x)
+    @tag(007)
+    repeat f32 i8i8 `" ++ [233]%N ++ runes_of_ascii "`,
+    @rightPad(' ')
+    repeat Pad,
 }")).
-Eval vm_compute in ("<<<M45>>>" ++ check (runes_of_ascii "
-packet
-tag{ string matchKey `line1
-line2` , @tag( 0 )// c
-@calculatedFrom( ""1"" )@calculatedFrom( // " ++ [128512]%N ++ runes_of_ascii " emoji
-""a\""b"" ) float64 matchKey
-,}options
-{ crc
-    = true
-    msg_type
-    //	t
-    =
-true;
-} packet o { match  roots
-as calculatedFrom { ""// no comment""
-    // packet A { u8 x, }
-    :
-    msg_type	, ""{,}""
-    :u128, [
-    65535 , 0123456789
-]/// triple
-: body ,// " ++ [128512]%N ++ runes_of_ascii " emoji
-} ,@rightPad ( ' '	) repeat
-string_ i64_ ,
-@lengthOf(
-lengthOf )@tag( 255// packet A { u8 x, }
-)	@tag( 00 )
-char[]
-stringy
-, }
-")).
-Eval vm_compute in ("<<<M133>>>" ++ check (runes_of_ascii "MetaData  falsey
-{ } root packet // `tick` ""quote"" 'q'
-o {@tag(3// " ++ [128512]%N ++ runes_of_ascii " emoji
-) @calculatedFrom( """") @lengthOf(
-    pack)char[ 65535
-    ]falsey
-    @lengthOf(falsey ) , }  root packet roots
-    {@lengthOf(
-chars )match Logon as chars{ ""`tick`"" :charz
-    // packet A { u8 x, }
-    ""a\\"" :Z9_ 007 : trueish ""CRC32"" :	msg_type , [
-3
-    ,3 // `tick` ""quote"" 'q'
-,
-00 ,4294967296 ,
-0
-,7 , //
-""x y"",""\" ++ [233]%N ++ runes_of_ascii """
-    //	t
-    ] : metadata ,""a	b""
-//x
-// " ++ [27880; 37322]%N ++ runes_of_ascii "
-:	crc } , }
-")).
-Eval vm_compute in ("<<<M1561>>>" ++ check (runes_of_ascii "packet Frame {
-    u8 HK,
-    u8 BK,
-    u8 TK,
-    match HK as Hdr {
-        1 : HdrA,
-        2 : HdrB,
-    },
-    match BK as Body {
-        1 : BodyA,
-        2 : BodyB,
-    },
-    match TK as Trl {
-        1 : TrlA,
-    },
+Eval vm_compute in ("<<<M1362>>>" ++ check (runes_of_ascii "
+
+  options
+{
+
+    LittleEndian 
+= false;	StringPrefixLenType=u16
+;
+
 }
 
-packet HdrA {
+    packet Heartbeat { 
+@rightPad
+	(
+'0' )  char[7
+    ] 
+seqNo,
+
+uint64
+
+    Tail
+
+,	i16
+Flags,u16
+msgKind , } 
+root
+packet	Reject {	zchar[
+
+    3  ] tag7  ,
+repeat 
+Heartbeat ,  repeat string
+    clOrdID , }
+
+")).
+Eval vm_compute in ("<<<M1694>>>" ++ check (runes_of_ascii "// top
+options {
+    // c1
+    f32a = 0
+    // c4
+}
+
+// c5
+packet trueish {
+    // c8
+}
+
+// c9
+MetaData _x {
+    // c12
+    char[0123456789] zchar,
+    // c17
+    string crc,
+    // c20
+    char[1] options1,
+    // c25
+    uint8 repeatCount,
+    // c28
+}
+// c29")).
+Eval vm_compute in ("<<<M1532>>>" ++ check (runes_of_ascii "MetaData chars {
+    uint64 A,
+    msg_type asx,
+    Z9_ a1,
+    stringy i64_ `doc`,
+}
+
+packet x_y_z {
+}
+
+options {
+    float = float32
+    rootA = false;
+    repeatCount = char[10];
+}
+
+packet Z9_ {
+    zchar[007] charz,
+}//x")).
+Eval vm_compute in ("<<<M1693>>>" ++ check (runes_of_ascii "
+// top
+    	root // c0
+    packet P // c2
+{  // c3
+
+hdr 
+    // c4
+	{ 
+  // c5
+u8 	 // c6
+a	// c7a
+    // c7b
+  , 
+    // c8
+  }
+
+, 	 // c10
+  	u8 // c11
+
+x // c12a
+// c12b
+  ,}
+// c14
+")).
+Eval vm_compute in ("<<<M1293>>>" ++ check (runes_of_ascii "packet A {
     u8 a,
 }
-
-packet HdrB {
+packet B {
     u16 b,
 }
-
-packet BodyA {
-    u32 c,
-}
-
-packet BodyB {
-    u64 d,
-}
-
-packet TrlA {
-    u8 e,
-}
-
-root packet Msg {
-    Frame,
-    u8 x,
-}")).
-Eval vm_compute in ("<<<M114>>>" ++ check (runes_of_ascii "packet
-a1 {@calculatedFrom(""`tick`"" ) uint32 charz	`crlf
-line` ,
-// c
-//x
-a1 `tab	here`, }
-    options
-    {
-// " ++ [27880; 37322]%N ++ runes_of_ascii "
-// " ++ [128512]%N ++ runes_of_ascii " emoji
-stringy =
-// c
-// a // b
-255 ;
-    metadata =	4294967296 pack
-    = /// triple
-string	; crc= string
-    ; }  root  packet
-crc	{ @tag(  42  )
-@calculatedFrom( ""abc""  )
-@rightPad ( '0'
-) u128 u8x
-/// triple
-//x
-,@lengthOf(len) uint16 int, }
-")).
-Eval vm_compute in ("<<<M1568>>>" ++ check (runes_of_ascii "
-packet tag
-
-    {
-
-}
-packet	falsey  {string
-    charz
-	@lengthOf(
-
-    zchar)
-
-,
-string // trailing space 
-    u@calculatedFrom(""" ++ [233]%N ++ runes_of_ascii "t" ++ [233]%N ++ runes_of_ascii """ )
-
-`// not a comment` 
-,@leftPad
-    (  '0') 
-char[]
-leftPad 
-@calculatedFrom( ""a	b""
-    )
-`// not a comment`, @calculatedFrom(	""`tick`""
-)  @lengthOf( roots )repeat
-MetaDataX
-    ,}
-")).
-Eval vm_compute in ("<<<M32>>>" ++ check (runes_of_ascii "packet int { T/// triple
-{ repeat _x ,	} ,
-    i64_ _x
-    `
-`, @calculatedFrom( ""x y"" )u32 A
-,  match a1 as
-    i8i8 { [ ""1""
-,
-4294967296
-]:
-    a1 ,"""":	a1
-    , 007: a1 , [ ""CRC32"" ] :Header} , int64 As, int8 a1 , //
-char[] float
-`tab	here`/// triple
-,
-repeat zchar[ 1	]u8x,
-} /// triple")).
-Eval vm_compute in ("<<<M1618>>>" ++ check (runes_of_ascii "
-options
-{ pack 	 // `tick` ""quote"" 'q'
-		=	0123456789
-}packet
-metadata{
-@leftPad(' '
-    ) stringy  @lengthOf(	_x
-    ) ,
-
-repeat u8
-int 
-`{ , }`
-,
-	@leftPad	//	t
-      (
-'0'	)repeat	char msg_type `it's`  ,
-	}
-	MetaData
-x_y_z {// trailing space 
-	}
-")).
-Eval vm_compute in ("<<<M1544>>>" ++ check (runes_of_ascii "packet
-rootA
-    { } 	 // trailing space 
-	  packet
-f32a//	t
-		{ match zchar
-    as
-
-    zchar { 65535:
-
-f32a,	7 :
-charz  // trailing space 
-
-,  ""{,}"" 
-  //	t
-	//x
-  :  Header,42:
-
-a1 // packet A { u8 x, }
-
-,
-    } ,} ")).
-Eval vm_compute in ("<<<M1549>>>" ++ check (runes_of_ascii "
-MetaData	// a // b
-
-	o
-{  string  Foo 
-,
-}
-MetaData
-    msg_type
-
-    { Header len
-    `" ++ [28040; 24687; 31867; 22411]%N ++ runes_of_ascii "`
-
-, }	options
-
-{	tag
-	='0'
-;
-
-    o
-=
-
-    ""CRC32""
-
-;
-Logon
-	=
-""`tick`""
-;  // a // b
-    }
-")).
-Eval vm_compute in ("<<<M1410>>>" ++ check (runes_of_ascii "packet A {
-    match k as n {
-        [
-            ""a"", ""bb"", ""c c"", ""d"", ""e"",
-            ""f"", ""g"", ""h"", ""i"", ""j"",
-            ""k""
-        ] : B,
-        2 : C,
+root packet P {
+    u8 K1,
+    u8 K2,
+    match K1 as M1 {
+        1 : A,
     },
-}")).
-Eval vm_compute in ("<<<M481>>>" ++ check (runes_of_ascii "packet uint8x
-{ match pack
-    as msg_type	{
-    0123456789 :	float
+    match K2 as M2 {
+        1 : B,
+    },
 }
-,
-} packet //	t
-a1
-    { } options options {packetx
-    = '\x00'	; u128= ""a	b""  ; }
 ")).
-Eval vm_compute in ("<<<M1806>>>" ++ check (runes_of_ascii "MetaData x_y_z {
-    int32 o,
-    zchar[65535] Packet,
-    i64_ o,
-    i64 o `
-    `,
+Eval vm_compute in ("<<<M224>>>" ++ check (runes_of_ascii "root packet
+T
+{ zchar[ // a // b
+0123456789
+] // c
+uint8x , }  root packet metadata { @rightPad( )  x_y_z @lengthOf( stringy )
+// `tick` ""quote"" 'q'
+// c
+, }")).
+Eval vm_compute in ("<<<M1869>>>" ++ check (runes_of_ascii "
+packet
+    A
+
+    { match
+    k  as
+
+    n{
+
+    [ 
+""a""  , ""bb"" , 
+007
+,
+    ""d"" , ""e""
+
+,
+66	, ""g"",
+    ""h""  ,  9, 
+""j""  ,
+	""k"" ]: B,2 :
+C
 }
 
-options {
-    x = u8;
-    // " ++ [27880; 37322]%N ++ runes_of_ascii "
-    // a // b
-}// trailing space ")).
-Eval vm_compute in ("<<<M546>>>" ++ check (runes_of_ascii "packet uint8x
+,}
+")).
+Eval vm_compute in ("<<<M531>>>" ++ check (runes_of_ascii "packet uint8x
 { match pack
     as msg_type	{
     0123456789 :	float
@@ -819,20 +1068,20 @@ Eval vm_compute in ("<<<M546>>>" ++ check (runes_of_ascii "packet uint8x
 } packet //	t
 a1
     { } options {packetx
-    = '\x00'	; @ u128= ""a	b""  ; }
+    = '\x00'	; u128= ""a	b""  ; } }
 ")).
-Eval vm_compute in ("<<<M448>>>" ++ check (runes_of_ascii "packet uint8x
+Eval vm_compute in ("<<<M432>>>" ++ check (runes_of_ascii "packet uint8x
 { match pack
     as msg_type	{
-    0123456789 :	float
-=
+    : 0123456789	float
+}
 ,
 } packet //	t
 a1
     { } options {packetx
     = '\x00'	; u128= ""a	b""  ; }
 ")).
-Eval vm_compute in ("<<<M483>>>" ++ check (runes_of_ascii "packet uint8x
+Eval vm_compute in ("<<<M470>>>" ++ check (runes_of_ascii "packet uint8x
 { match pack
     as msg_type	{
     0123456789 :	float
@@ -840,254 +1089,249 @@ Eval vm_compute in ("<<<M483>>>" ++ check (runes_of_ascii "packet uint8x
 ,
 } packet //	t
 a1
-    { } '\x00' {packetx
+     } options {packetx
     = '\x00'	; u128= ""a	b""  ; }
 ")).
-Eval vm_compute in ("<<<M703>>>" ++ check (runes_of_ascii "// @lengthOf(
+Eval vm_compute in ("<<<M493>>>" ++ check (runes_of_ascii "packet uint8x
+{ match pack
+    as msg_type	{
+    0123456789 :	float
+}
+,
+} packet //	t
+a1
+    { } options {f64
+    = '\x00'	; u128= ""a	b""  ; }
+")).
+Eval vm_compute in ("<<<M711>>>" ++ check (runes_of_ascii "// @lengthOf(
 packet i8i8 { u128 o , }
-options '1'{ MetaDataX = true;
+options { MetaDataX = true;
     BodyLength =""packet"" x_y_z= 007
+""crc //x
+= ""abc"" ;
+    msg_type =
+i16 }")).
+Eval vm_compute in ("<<<M704>>>" ++ check (runes_of_ascii "// @lengthOf(
+packet i8i8 { u128 o , }
+options { MetaDataX = true;
+    BodyLength =""packet"" x_y_z 007
 crc //x
 = ""abc"" ;
     msg_type =
 i16 }")).
-Eval vm_compute in ("<<<M1607>>>" ++ check (runes_of_ascii "packet A {
+Eval vm_compute in ("<<<M1463>>>" ++ check (runes_of_ascii "packet A {
     match k as n {
         [
             1, ""bb"", 007, ""d"", 5,
-            ""f"", 7, ""h"", 9, ""j""
+            ""f"", 7, ""h""
         ] : B,
         2 : C,
     },
 }")).
-Eval vm_compute in ("<<<M688>>>" ++ check (runes_of_ascii "// @lengthOf(
-packet i8i8 { u128 o , }
-options { MetaDataX = true;
-    BodyLength =""packet"" x_y_z= 007
-crc //x
-= ""abc"" ;
-    msg_type =
-i16")).
-Eval vm_compute in ("<<<M1763>>>" ++ check (runes_of_ascii "packet A {
+Eval vm_compute in ("<<<M1783>>>" ++ check (runes_of_ascii "packet A {
     match k as n {
         [
-            1, 22, 007, 4, 5,
-            66, 7, 8, 9, 10
+            ""a"", ""bb"", 007, ""d"", ""e"",
+            66
         ] : B,
         2 : C,
     },
 }")).
-Eval vm_compute in ("<<<M1425>>>" ++ check (runes_of_ascii "
+Eval vm_compute in ("<<<M1550>>>" ++ check (runes_of_ascii "
+
+  packet A
+
+{ match
+	k 
+as
+n {
+    [
+
+    ""a"", 
+""bb"" ,
+""c c""
+	,
+
+    ""d""
+,""e"" ,
+	""f"" ]
+: B
+    2
+:
+C}
+    ,  }
+")).
+Eval vm_compute in ("<<<M1153>>>" ++ check (runes_of_ascii "MetaData leftPad { chars MetaDataX , // c
+} packet repeatCount { char[ 255 ] uint8x `" ++ [233]%N ++ runes_of_ascii "` , } MetaData pack { As Foo , }")).
+Eval vm_compute in ("<<<M1185>>>" ++ check (runes_of_ascii "MetaData leftPad { chars MetaDataX , } packet repeatCount { char[ 255 ] uint8x `" ++ [233]%N ++ runes_of_ascii "` , } MetaData pack { As Foo // c
+, }")).
+Eval vm_compute in ("<<<M1461>>>" ++ check (runes_of_ascii "packet asx {
+    match u128 as lengthOf {
+        //	t
+        // `ti/ck` ""quote"" 'q'
+        255 : x,
+    },
+}")).
+Eval vm_compute in ("<<<M909>>>" ++ check (runes_of_ascii "packet A {
+  match k as n {
+    [1, ""bb"", 007, ""d"", 5, ""f"", 7, ""h"", 9, ""j"", 11, ""l""] : B
+    2 : C
+  },
+}")).
+Eval vm_compute in ("<<<M160>>>" ++ check (runes_of_ascii "
+MetaData zchar { roots
+A , char[] falsey `line1
+line2` ,
+// " ++ [128512]%N ++ runes_of_ascii " emoji
+// @lengthOf(
+int crc ,	} //	t")).
+Eval vm_compute in ("<<<M876>>>" ++ check (runes_of_ascii "packet A {
+  match k as n {
+    [""a"", ""bb"", 007, ""d"", ""e"", 66, ""g"", ""h"", 9] : B
+    2 : C
+  },
+}")).
+Eval vm_compute in ("<<<M1732>>>" ++ check (runes_of_ascii "
+options 
+{ charz
+=
+""1""  _x	=
+	""" ++ [128512]%N ++ runes_of_ascii """ u=
+	string
+;
+
+    stringy
+=""" ++ [28040; 24687]%N ++ runes_of_ascii """ 
+} 
+  // @lengthOf(
+ 
+")).
+Eval vm_compute in ("<<<M1909>>>" ++ check (runes_of_ascii "packet A {
+    u32 crc @calculatedFrom(""\
+    ""),
+    @calculatedFrom(""\
+    "")
+    u8 y,
+}")).
+Eval vm_compute in ("<<<M856>>>" ++ check (runes_of_ascii "packet A {
+  match k as n {
+    [1, ""bb"", 007, ""d"", 5, ""f"", 7, ""h""] : B,
+    2 : C
+  },
+}")).
+Eval vm_compute in ("<<<M1737>>>" ++ check (runes_of_ascii "
+packet	A
+    {  match
+    k
+    as
+n
+
+    { 
+[
+    1]
+	: B
+	2  : C
+
+    }
+
+, }
+
+")).
+Eval vm_compute in ("<<<M837>>>" ++ check (runes_of_ascii "packet A {
+  match k as n {
+    [""a"", ""bb"", 007, ""d"", ""e"", 66] : B
+    2 : C
+  },
+}")).
+Eval vm_compute in ("<<<M834>>>" ++ check (runes_of_ascii "packet A {
+  match k as n {
+    [1, 22, ""c c"", 4, 5, ""f""] : B,
+    2 : C
+  },
+}")).
+Eval vm_compute in ("<<<M464>>>" ++ check (runes_of_ascii "packet uint8x
+{ match pack
+    as msg_type	{
+    0123456789 :	float
+}
+,
+}")).
+Eval vm_compute in ("<<<M1830>>>" ++ check (runes_of_ascii "root packet P {
+    u16 a,
+    u32 Sum @calculatedFrom(""CR\
+    C32""),
+}")).
+Eval vm_compute in ("<<<M924>>>" ++ check (runes_of_ascii "packet A {
+    B b `a
+b`,
+    B `a
+b`,
+    repeat B bs `a
+b`,
+}")).
+Eval vm_compute in ("<<<M2>>>" ++ check (runes_of_ascii "root
+// trailing space 
+// " ++ [27880; 37322]%N ++ runes_of_ascii "
+packet
+u{  } // trailing space ")).
+Eval vm_compute in ("<<<M773>>>" ++ check (runes_of_ascii "packet A {
+  match k as n {
+    [1] : B,
+    2 : C
+  },
+}")).
+Eval vm_compute in ("<<<M1481>>>" ++ check (runes_of_ascii "
+MetaData
+
+    M
+{ 
+u8 
+x  `
+` 
+,
+	T
+t  `
+`	,	}
+")).
+Eval vm_compute in ("<<<M1079>>>" ++ check (runes_of_ascii "packet A { u8 x, } // a
+// b
+packet B {} // c
+// d")).
+Eval vm_compute in ("<<<M47>>>" ++ check (runes_of_ascii "MetaData	lengthOf
+{
+Header o `doc`
+    ,}
+")).
+Eval vm_compute in ("<<<M1871>>>" ++ check (runes_of_ascii "root packet P {
+    char c,
+    u8 x,
+}")).
+Eval vm_compute in ("<<<M1663>>>" ++ check (runes_of_ascii "  MetaData
+M{	}// c
+	  options{ } ")).
+Eval vm_compute in ("<<<M1915>>>" ++ check (runes_of_ascii "packet A {
+    u8 x `d" ++ [11]%N ++ runes_of_ascii "`,// c" ++ [11]%N ++ runes_of_ascii "
+}")).
+Eval vm_compute in ("<<<M1076>>>" ++ check (runes_of_ascii "MetaData M {
+}// c
+packet A {}")).
+Eval vm_compute in ("<<<M1614>>>" ++ check (runes_of_ascii "
 
   packet
 A
-{match k as
-n
+{  }
 
-    {
-
-    [
-1
-	,
-22,	""c c""  , 
-4
-	,	5
-    ,
-    ""f"" ,
-7 , 
-8
-    ]: B
-
-    , 
-2  :
-	C }
-
-, }")).
-Eval vm_compute in ("<<<M1698>>>" ++ check (runes_of_ascii "packet B {
-    u8 a,
+// c" ++ [160]%N)).
+Eval vm_compute in ("<<<M1695>>>" ++ check (runes_of_ascii "options {
+    a = 1;
+}")).
+Eval vm_compute in ("<<<M244>>>" ++ check (runes_of_ascii "MetaData u128{} //x")).
+Eval vm_compute in ("<<<M1006>>>" ++ check (runes_of_ascii "packet A {
 }
-
-root packet P {
-    u8 K,
-    match K as Body {
-        1 : B,
-    },
-    u16 L @lengthOf(Body),
+// c" ++ [8202]%N)).
+Eval vm_compute in ("<<<M729>>>" ++ check (runes_of_ascii "// only a comment")).
+Eval vm_compute in ("<<<M1476>>>" ++ check (runes_of_ascii "MetaData tag {
 }")).
-Eval vm_compute in ("<<<M1158>>>" ++ check (runes_of_ascii "MetaData leftPad { chars MetaDataX , } packet
-// c
-repeatCount { char[ 255 ] uint8x `" ++ [233]%N ++ runes_of_ascii "` , } MetaData pack { As Foo , }")).
-Eval vm_compute in ("<<<M1675>>>" ++ check (runes_of_ascii "
-MetaData
-    zchar 
-{ roots A ,  char[]
-falsey  `line1
-line2`
-	,
-// " ++ [128512]%N ++ runes_of_ascii " emoji
-  // @lengthOf(
-	int 
-crc  ,
-}//	t
- 
+Eval vm_compute in ("<<<M1560>>>" ++ check (runes_of_ascii "  // c" ++ [8232]%N ++ runes_of_ascii "
 ")).
-Eval vm_compute in ("<<<M915>>>" ++ check (runes_of_ascii "packet A {
-  match k as n {
-    [""a"", ""bb"", 007, ""d"", ""e"", 66, ""g"", ""h"", 9, ""j"", ""k"", 12] : B
-    2 : C
-  },
-}")).
-Eval vm_compute in ("<<<M1278>>>" ++ check (runes_of_ascii "  options{ 
-LittleEndian =	true
-	; } root	packet
-	P {	u16  a ,u32 
-Sum
-@calculatedFrom(
-""CRC32""  )	, }
-
-")).
-Eval vm_compute in ("<<<M641>>>" ++ check (runes_of_ascii "
-packet
-    asx {match u128 as lengthOf
-{
-//	t
-// `tick` ""quote"" 'q'
-255 : x ,
-    } @lengthOf ,	}")).
-Eval vm_compute in ("<<<M1519>>>" ++ check (runes_of_ascii "packet uint8x {
-    match pack as msg_type {
-        0123456789 : float,
-    },
-}
-
-packet a1 {
-}")).
-Eval vm_compute in ("<<<M642>>>" ++ check (runes_of_ascii "
-packet
-    asx {match u128 as lengthOf
-{'1'
-//	t
-// `tick` ""quote"" 'q'
-255 : x ,
-    } ,	}")).
-Eval vm_compute in ("<<<M638>>>" ++ check (runes_of_ascii "
-packet
-    asx {match u128 as leng""thOf
-{
-//	t
-// `tick` ""quote"" 'q'
-255 : x ,
-    } ,	}")).
-Eval vm_compute in ("<<<M597>>>" ++ check (runes_of_ascii "
-packet
-    asx {match u128 as lengthOf
-{
-//	t
-// `tick` ""quote"" 'q'
-255  x ,
-    } ,	}")).
-Eval vm_compute in ("<<<M860>>>" ++ check (runes_of_ascii "packet A {
-  match k as n {
-    [1, 22, ""c c"", 4, 5, ""f"", 7, 8] : B,
-    2 : C
-  },
-}")).
-Eval vm_compute in ("<<<M582>>>" ++ check (runes_of_ascii "
-packet
-    asx {match u128 as 
-{
-//	t
-// `tick` ""quote"" 'q'
-255 : x ,
-    } ,	}")).
-Eval vm_compute in ("<<<M1916>>>" ++ check (runes_of_ascii "
-MetaData
-x
-{x
-    Packet ,
-i32	lengthOf
-	, 	 // `tick` ""quote"" 'q'
-	  }
-")).
-Eval vm_compute in ("<<<M601>>>" ++ check (runes_of_ascii "
-packet
-    asx {match u128 as lengthOf
-{
-//	t
-// `tick` ""quote"" 'q'
-255")).
-Eval vm_compute in ("<<<M108>>>" ++ check (runes_of_ascii "packet int {}
-options {leftPad ='0' ;metadata= char[] Foo=
-'0' ; }
-")).
-Eval vm_compute in ("<<<M1431>>>" ++ check (runes_of_ascii "
-
-  packet
-
-body
-{ i32
-f32a `{ , }`
-    ,
-}  options
-{}	// c
-")).
-Eval vm_compute in ("<<<M948>>>" ++ check (runes_of_ascii "packet A {
-    B b `x
-`,
-    B `x
-`,
-    repeat B bs `x
-`,
-}")).
-Eval vm_compute in ("<<<M27>>>" ++ check (runes_of_ascii "options{Logon = """ ++ [28040; 24687]%N ++ runes_of_ascii """
-    ; BodyLength =
-    false
-; }
-")).
-Eval vm_compute in ("<<<M1203>>>" ++ check (runes_of_ascii "packet body { // c
-i32 f32a `{ , }` , } options { }")).
-Eval vm_compute in ("<<<M1645>>>" ++ check (runes_of_ascii "root packet A {
-    u8 x `a
-        b
-      c`,
-}")).
-Eval vm_compute in ("<<<M1535>>>" ++ check (runes_of_ascii "options {
-    trueish = '0';
-    a1 = u64;
-}")).
-Eval vm_compute in ("<<<M1493>>>" ++ check (runes_of_ascii "  options 
-{
-
-a= 1	;  // a
-	b=2// b
-}")).
-Eval vm_compute in ("<<<M424>>>" ++ check (runes_of_ascii "packet uint8x
-{ match pack
-    as")).
-Eval vm_compute in ("<<<M1586>>>" ++ check (runes_of_ascii "options {
-    options1 = ' ';
-}")).
-Eval vm_compute in ("<<<M1077>>>" ++ check (runes_of_ascii "MetaData M {
-}// c
-options {}")).
-Eval vm_compute in ("<<<M1084>>>" ++ check (runes_of_ascii "packet A { // a
- u8 x, }")).
-Eval vm_compute in ("<<<M1108>>>" ++ check (runes_of_ascii "MetaData tag
-// c
-{ }")).
-Eval vm_compute in ("<<<M1134>>>" ++ check (runes_of_ascii "MetaData u { // c
-}")).
-Eval vm_compute in ("<<<M1031>>>" ++ check (runes_of_ascii "packet A {
-}
-// c" ++ [11]%N)).
-Eval vm_compute in ("<<<M1019>>>" ++ check (runes_of_ascii "packet A {
-}// c" ++ [8239]%N)).
-Eval vm_compute in ("<<<M1071>>>" ++ check (runes_of_ascii "packet A {
-}
-
-
-")).
-Eval vm_compute in ("<<<M741>>>" ++ check ([65533; 65533]%N ++ runes_of_ascii "1" ++ [65533]%N ++ runes_of_ascii "dcV")).
-Eval vm_compute in ("<<<M111>>>" ++ check (runes_of_ascii "
-
-")).
+Eval vm_compute in ("<<<M754>>>" ++ check (runes_of_ascii "Y )'")).
